@@ -364,7 +364,8 @@ class Scheduler:
             if not is_sim(c) or c == "SimModel":
                 continue
             for key, ats in (("poked(int,bool)", ["int", "bool"]), ("fired()", []), ("renamed(QString,int)", ["QString", "int"]),
-                             ("picked(int)", ["int"]), ("picked(QString)", ["QString"])):
+                             ("picked(int)", ["int"]), ("picked(QString)", ["QString"]), ("moved(int)", ["int"]), ("moved(QString)", ["QString"]),
+                             ("dialed(int,int)", ["int", "int"]), ("dialed(int,QString)", ["int", "QString"])):
                 if (n, key) not in self.w.handlers:
                     cands.append((n, key, ats))
             if c == "SimPanel" and (n, "raised(int)") not in self.w.handlers:
